@@ -188,6 +188,7 @@ def _return_kinds(fn):
 
 
 def r4_guarded_deref(ctx):
+    K.escape_marks_removed(ctx)      # a condition with an escaped quote is evaluated on the text as written
     # kinds the logical solver can return
     kinds = {}
     for rel, cname in ((TN, "NumberType"), ("src/scinumtools/dip/datatypes/type_boolean.py", "BooleanType"), ("src/scinumtools/dip/datatypes/type_string.py", "StringType")):
@@ -226,6 +227,7 @@ def r4_guarded_deref(ctx):
             continue
         from ..flowexpr import paths
         unwrapped, seen, unk = set(), 0, []
+        narrow = {}
         for q in paths(f):
             if q.status == "raise":
                 continue
@@ -236,6 +238,9 @@ def r4_guarded_deref(ctx):
                 r = t.resolved
                 if isinstance(r, ast.Call) and dotted_name(r.func) == "isinstance" and len(r.args) == 2 and "bool" in norm(r.args[1]):
                     tests[norm(r.args[0])] = t.extra
+                    kinds = {norm(x) for x in (r.args[1].elts if isinstance(r.args[1], ast.Tuple) else [r.args[1]])}
+                    if kinds <= {"bool", "np.bool_", "numpy.bool_", "np.bool"}:
+                        narrow.setdefault(norm(r), kinds)
             for c2 in calls[-1:]:
                 # the receiver is made from the left token and the argument from the right one
                 if meth == "operate_binary" and c2.args:
@@ -264,6 +269,13 @@ def r4_guarded_deref(ctx):
                         unwrapped.add(norm(o))          # a token as it came from the buffers, untested and unwrapped
                     else:
                         unk.append(norm(o))             # some other expression: what it returns is not known here
+        # numeric comparisons answer with NumPy booleans (isclose, array comparisons): a guard that names `bool` alone lets them through unwrapped
+        for gtxt, kinds in narrow.items():
+            w = "the guard that wraps bare booleans names both bool and np.bool_ (numeric comparisons return NumPy booleans)"
+            if bare and "bool" in kinds and not (kinds & {"np.bool_", "numpy.bool_"}):
+                ctx.violated(LS, f"{cname}.{meth}", w, detail=gtxt, expected="isinstance(x, (bool, np.bool_))")
+            elif kinds & {"np.bool_", "numpy.bool_"} and "bool" in kinds:
+                ctx.holds(LS, f"{cname}.{meth}", w, detail=gtxt)
         if not seen:
             ctx.unrecognised(LS, f"{cname}.{meth}", "every operand is wrapped when it is a bare boolean", "no logical_* call found on any path")
         elif unk and not unwrapped:
